@@ -506,11 +506,14 @@ def qmToBag (vars : List (Label × VKind)) (qm : QM) : List (PTerm Label) :=
   ++ qm.quad.flatMap (fun t => expandProd t.2 (affOf vars t.1.1) (affOf vars t.1.2))
   ++ [PTerm.const qm.off]
 
-inductive CqmErr | lowerBound | encoding | quadraticConstraint | infeasible
+inductive CqmErr | lowerBound | encoding | quadraticConstraint | infeasible | conflict
   deriving DecidableEq, Repr
 
-/-- encoding bits created for the integer variables, in `cqm.variables` order -/
-def cqmInitBits : List (Label × VKind) → Except CqmErr (List (PTerm Label))
+/-- encoding bits created for the integer variables, in `cqm.variables` order.  `taken` = the labels the bits of the next
+    integer must avoid: every variable label of the CQM and the bits created so far (`.conflict` = `ValueError("given CQM has
+    conflicting variables with ones generated by dimod.generators.binary_encoding")`, as repaired by
+    patches/cqm-to-bqm-bit-label-conflict.diff: before, only the bits created so far were compared) -/
+def cqmInitBits (taken : List Label) : List (Label × VKind) → Except CqmErr (List (PTerm Label))
   | [] => .ok []
   | (v, k) :: r =>
     match k with
@@ -519,15 +522,16 @@ def cqmInitBits : List (Label × VKind) → Except CqmErr (List (PTerm Label))
       match binaryEncoding v ub.toNat with
       | none => .error .encoding
       | some e =>
-        match cqmInitBits r with
+        if e.any (fun b => taken.contains b.1) then .error .conflict else
+        match cqmInitBits (taken ++ e.map (·.1)) r with
         | .error err => .error err
         | .ok rest => .ok (e.map (fun b => PTerm.lin b.1 0) ++ rest)
-    | _ => cqmInitBits r
+    | _ => cqmInitBits taken r
 
 /-- variables created up front: the encoding bits of every integer (in `cqm.variables` order), then
     the binary/spin variables -/
 def cqmInitVars (vars : List (Label × VKind)) : Except CqmErr (List (PTerm Label)) :=
-  match cqmInitBits vars with
+  match cqmInitBits (vars.map (·.1)) vars with
   | .error e => .error e
   | .ok bits =>
     .ok (bits ++ (vars.filter (fun p => match p.2 with | .integer _ _ => false | _ => true)).map (fun p => PTerm.lin p.1 0))
